@@ -472,6 +472,9 @@ func (v *Vault) Read(ctx context.Context, id uuid.UUID) (*workflow.Plan, error) 
 	}
 	cp := api.DeepCopy(p)
 	v.applyImage(cp)
+	v.mu.Unlock()
+	api.Yield("r:done") // the caller now holds a snapshot that may go stale
+	v.mu.Lock()
 	return cp, nil
 }
 
